@@ -1,6 +1,8 @@
 package ingest
 
 import (
+	"slices"
+
 	"diagonal.works/b6"
 	"github.com/golang/geo/s2"
 )
@@ -134,80 +136,70 @@ func (o *OverlayWorld) FindLocationByID(id b6.FeatureID) (s2.LatLng, error) {
 }
 
 func (o *OverlayWorld) FindRelationsByFeature(id b6.FeatureID) b6.RelationFeatures {
-	byID := make(map[b6.RelationID]b6.RelationFeature)
-	for i, w := range []b6.World{o.base, o.overlay} {
-		r := w.FindRelationsByFeature(id)
-		for r.Next() {
-			if i == 0 && o.overlay.HasFeatureWithID(r.FeatureID()) {
-				// Replaced by the overlay's version, which may no longer
-				// reference id.
-				continue
-			}
-			byID[r.Feature().RelationID()] = r.Feature()
-		}
-	}
-	relations := make([]b6.RelationFeature, 0, len(byID))
-	for _, relation := range byID {
-		relations = append(relations, relation)
+	relations := make([]b6.RelationFeature, 0)
+	references := o.FindReferences(id, b6.FeatureTypeRelation)
+	for references.Next() {
+		relations = append(relations, references.Feature().(b6.RelationFeature))
 	}
 	return &relationFeatures{relations: relations, i: -1}
 }
 
 func (o *OverlayWorld) FindCollectionsByFeature(id b6.FeatureID) b6.CollectionFeatures {
-	byID := make(map[b6.CollectionID]b6.CollectionFeature)
-	for i, w := range []b6.World{o.base, o.overlay} {
-		c := w.FindCollectionsByFeature(id)
-		for c.Next() {
-			if i == 0 && o.overlay.HasFeatureWithID(c.FeatureID()) {
-				continue // Replaced by the overlay's version, as above.
-			}
-			byID[c.Feature().CollectionID()] = c.Feature()
-		}
-	}
-	collections := make([]b6.CollectionFeature, 0, len(byID))
-	for _, collection := range byID {
-		collections = append(collections, collection)
+	collections := make([]b6.CollectionFeature, 0)
+	references := o.FindReferences(id, b6.FeatureTypeCollection)
+	for references.Next() {
+		collections = append(collections, references.Feature().(b6.CollectionFeature))
 	}
 	return &collectionFeatures{collections: collections, i: -1}
 }
 
 func (o *OverlayWorld) FindAreasByPoint(p b6.FeatureID) b6.AreaFeatures {
-	byID := make(map[b6.AreaID]b6.AreaFeature)
-	for i, w := range []b6.World{o.base, o.overlay} {
-		areas := w.FindAreasByPoint(p)
-		for areas.Next() {
-			if i == 0 && o.overlay.HasFeatureWithID(areas.FeatureID()) {
-				continue // Replaced by the overlay's version, as above.
-			}
-			byID[areas.Feature().AreaID()] = areas.Feature()
-		}
-
+	areas := make([]b6.AreaFeature, 0)
+	references := o.FindReferences(p, b6.FeatureTypeArea)
+	for references.Next() {
+		areas = append(areas, references.Feature().(b6.AreaFeature))
 	}
-	features := make([]b6.AreaFeature, 0, len(byID))
-	for _, area := range byID {
-		features = append(features, area)
-	}
-	return &areaFeatures{features: features, i: -1}
+	return &areaFeatures{features: areas, i: -1}
 }
 
+// FindReferences returns the features that reference id, directly or via
+// other features, among the features of the overlay and those features of
+// the base that the overlay doesn't replace. Each of the two worlds only
+// follows chains of references between its own features, and the base
+// follows them through features the overlay has since replaced, so chains
+// are followed here, one reference at a time, through the current version
+// of each feature.
 func (o *OverlayWorld) FindReferences(id b6.FeatureID, typed ...b6.FeatureType) b6.Features {
 	byID := make(map[b6.FeatureID]b6.Feature)
-	for i, w := range []b6.World{o.base, o.overlay} {
-		references := w.FindReferences(id, typed...)
-		for references.Next() {
-			if i == 0 && o.overlay.HasFeatureWithID(references.FeatureID()) {
-				continue // Replaced by the overlay's version, as above.
+	queue := []b6.FeatureID{id}
+	for len(queue) > 0 {
+		next := queue[0]
+		queue = queue[1:]
+		for i, w := range []b6.World{o.base, o.overlay} {
+			references := w.FindReferences(next)
+			for references.Next() {
+				rid := references.FeatureID()
+				if _, ok := byID[rid]; ok || (i == 0 && o.overlay.HasFeatureWithID(rid)) {
+					continue
+				}
+				feature := references.Feature()
+				for _, reference := range feature.References() {
+					if reference.Source() == next {
+						byID[rid] = feature
+						queue = append(queue, rid)
+						break
+					}
+				}
 			}
-			byID[references.FeatureID()] = references.Feature()
 		}
-
 	}
 
 	features := make([]b6.Feature, 0, len(byID))
 	for _, feature := range byID {
-		features = append(features, feature)
+		if len(typed) == 0 || slices.Contains(typed, feature.FeatureID().Type) {
+			features = append(features, feature)
+		}
 	}
-
 	return b6.NewFeatureIterator(features)
 }
 
